@@ -267,9 +267,9 @@ func c05Track(w *simWorld, sn *Snapshot, detachedSet map[string]bool) (out []Vio
 				// refused: the store changes, the requester is told 4xx and nobody else anything
 				refusedP2P := false
 				if cat == types.TopicCatP2P {
-					for _, oc := range w.clientsOf(c.User.Idx) {
+					for _, oc := range w.Clients { // either party's request: it creates both subscriptions of a new topic
 						for _, sx := range oc.Sents {
-							if sx.Msg != nil && sx.Msg.Sub != nil && sx.Code >= 400 && w.globalName(oc, sx.Msg.Sub.Topic) == tname {
+							if oc.User != nil && sx.Msg != nil && sx.Msg.Sub != nil && sx.Code >= 400 && w.globalName(oc, sx.Msg.Sub.Topic) == tname {
 								refusedP2P = true
 							}
 						}
